@@ -41,3 +41,9 @@ claim("C12",
       "Close and everything that can wait are decided structurally, for every moment at which Close may be called: the effectful body is a sync.Once closure; inside it close(quit) dominates all else, the FIN is attempted under a timeout context before cancel(), cancel() and queue.stop() dominate wg.Wait(), ticker stops come after the Wait; every blocking select / bare channel operation / WaitGroup.Wait / transport callback in gbn (enumerated from the SSA) has a termination alternative that Close triggers (quit, ctx.Done(), parent-closed channel) or a timer, and transport callbacks get g.ctx or a context derived from it; every go statement is WaitGroup-tracked and waited or self-terminating, every ticker/timer the connection creates is stopped on the close path. A schedule-independent argument of this kind is what 'at any moment, from any goroutine' needs; tests can only sample moments.",
       "Not decided: the numeric bound on how long Close takes, what the peer observes after the FIN, goroutines or timers inside dependencies (grpc, websocket). Assumes transport callbacks honour their context.",
       "DESIGN.md §4 C12")
+
+claim("C13",
+      "exhaustive enumeration of the send goroutine's waits (same-goroutine call graph) with a must-have-case rule; must-pass-through path rules for arming/disarming the timers",
+      "Keepalive is decided as wiring that must hold on every path: each blocking select the send goroutine can reach has a pong-expiry case that ends the loop with errKeepaliveTimeout or is timer-bounded (so expiry is observed idle, sending, or on a full window); each ping-tick leg polls pong expiry first, then restarts and activates the pong timer and restarts the ping timer on every path, and the main loop queues a ping packet; the pong timer is activated nowhere else and 0 means never; in the receive loop every path from a successfully parsed packet to the next iteration restarts the ping timer and pauses an active pong timer; the send-loop wrapper closes the connection. These are the necessary conditions for both halves of the property; the time bound itself is not decided.",
+      "Not decided: the numeric bound (ping interval + pong timeout + resend sync wait), the race between Pause and a tick that already passed the IsActive test (needs a dynamic technique).",
+      "DESIGN.md §4 C13")
